@@ -1,7 +1,7 @@
 (* C02 -- the nesting limit bounds tree depth and recursion for any input.  Statements only; proofs in
    proofs/{BlockProofs,InlineProofs,CoreProofs}.v; see DESIGN.md section 6 C02. *)
 From Coq Require Import String.
-From MdIt Require Import Prims Tables Tree Render Block Inline Core Dump Dispatch BlockProofs InlineProofs CoreProofs.
+From MdIt Require Import Prims Tables Tree Render Block Inline Core Dump Dispatch BlockProofs InlineProofs CoreProofs DepthProofs.
 Local Open Scope string_scope.
 Local Open Scope list_scope.
 Local Open Scope N_scope.
@@ -32,7 +32,8 @@ Proof. vm_compute. reflexivity. Qed.
    tokenizer, the inline tokenizer and skip_token consumes one unit of fuel, and running out is the
    distinguished outcome OutOfFuel; the theorems say that outcome is impossible once the budget exceeds
    the nesting limit by 1 (blocks) or 2 (inlines) -- whatever the input and the rule chain.
-   NOT PROVED: the bound on the depth of the produced tree (and with it walk/render/drop); decided on
+   ALSO PROVED: the tree built by the block parser is at most 2 * max_nesting deep (any input, any chain).
+   NOT PROVED: the bound on the depth added by the inline parser (and with it walk/render/drop); decided on
    every run by the depth oracle (tree depth, emphasis wrappers not counted, <= 3*limit+4), the measured
    recursion gauge of the implementation, and the correspondence.  Emphasis nesting is NOT bounded by
    the limit in the implementation: open known finding F3. *)
@@ -53,6 +54,12 @@ Proof. exact inline_recursion_bounded. Qed.
 Theorem C02_parse_recursion_bounded : forall m src, snd (parse (default_fuel m) m src) <> inl OutOfFuel.
 Proof. exact parse_recursion_bounded. Qed.
 
+(* block tree depth: quotes add one level, lists two, per nesting level; beyond the limit nothing is built *)
+Theorem C02_block_tree_depth_bounded : forall fuel cfg texts k m a e refs root' refs',
+  block_parse fuel cfg texts (Node k m a e []) refs = inr (root', refs') ->
+  (depth_of root' <= 2 * N.to_nat (bc_maxnest cfg))%nat.
+Proof. exact block_tree_depth. Qed.
+
 (* non-vacuity: the budget is tight up to a constant -- with a budget below the nesting limit the
    same parser does run out on nested input *)
 Example C02_budget_matters :
@@ -64,3 +71,4 @@ Proof. vm_compute. split; reflexivity. Qed.
 Print Assumptions C02_block_recursion_bounded.
 Print Assumptions C02_inline_recursion_bounded.
 Print Assumptions C02_parse_recursion_bounded.
+Print Assumptions C02_block_tree_depth_bounded.
